@@ -43,7 +43,7 @@ REQUIRED = ["Sqfs.C09." + t for t in (
     "no_deadlock_flag", "api_returns", "failure_recorded", "failure_sticky", "failure_reported_submit", "failure_reported_get_status",
     "failure_reported_dequeue", "healthy_status_zero", "dequeue_null_only_if", "refines_serial", "refines_serial_prefix",
     "x_projects", "xrun_reachable", "ctx_exclusive_users", "ctx_read_at_entry", "set_worker_ptr_returns", "submit_oom",
-    "x_no_deadlock", "x_no_deadlock_flag")]
+    "x_no_deadlock", "x_no_deadlock_flag", "fine_refines_coarse", "frun_reachable", "fine_mutex", "fine_safety", "fine_no_deadlock")]
 WITNESS_MODULE = "Sqfs.Witness.C09"
 WITNESS_REQUIRED = ["Sqfs.Witness.C09." + t for t in (
     "schedule_is_strict_execution", "deadlock_after_failure", "hang_forever", "no_deadlock_fails_for_pinned_code",
@@ -630,7 +630,9 @@ def fine_lines(ctx, rep, count):
             ops.append("x")
         r = ctx.rng.random()
         rc = "-" if r < 0.5 else "%d:%d" % (ctx.rng.randrange(k), ctx.rng.choice([-1, -7, 5])) if (r < 0.9 or k < 2) else "0:3,%d:-2" % (k - 1)
-        out.append("fine %d %d %s %d %d %s" % (rep, n, rc, ctx.rng.randrange(1 << 30), ctx.rng.choice([0, 0, 5, 15]), " ".join(ops)))
+        # schedules without set_worker_ptr / failing calloc are also compared, fine step by fine step, with the fine model
+        cmd = "fine" if any(t[0] in "po" for t in ops) else "finev"
+        out.append("%s %d %d %s %d %d %s" % (cmd, rep, n, rc, ctx.rng.randrange(1 << 30), ctx.rng.choice([0, 0, 5, 15]), " ".join(ops)))
     return out
 
 
@@ -650,6 +652,7 @@ def _hist_canon(h):
 
 def fine_verdict(line, out, mout):
     """compare one fine-mode run of the real code with the model run on the derived coarse schedule; -> (problems, info)"""
+    out = out.split(" ## ftrace=")[0]
     head, sep, hist = out.partition(" ||")
     body, sep2, tail = head.partition(" # ")
     m = re.match(r"dl=(\d) steps=(\d+) derived=(.*) rets=(\S+)$", tail)
@@ -685,7 +688,43 @@ def fine_verdict(line, out, mout):
     return bad, {"steps": steps, "derived": derived, "sync": len(sync), "hist": hist}
 
 
+def fine_model_script(line, out):
+    """`frun` line for the fine model from the fine schedule a `finev` run took"""
+    m = re.search(r" ## ftrace=(.*) ## fsnaps=", out)
+    parts = line.split()
+    t = "" if (not m or m.group(1) == "-") else m.group(1)
+    return ("frun %s %s %s %s" % (parts[1], parts[2], parts[3], t)).strip()
+
+
+def fine_model_verdict(out, mout):
+    """the real code, fine step by fine step, against the fine model (Model/C09PoolFine.lean)"""
+    m = re.search(r" ## fsnaps=(.*)$", out)
+    if not m:
+        return ["no fine snapshots in the harness output"], 0
+    got = m.group(1).split(" | ")
+    mhead, _, mhist = mout.partition(" || ")
+    want = mhead.split(" | ")
+    bad = []
+    if "ne" in want:
+        bad.append("the fine model refuses step %d of the fine schedule the real code took" % want.index("ne"))
+    k = next((j for j, (x, y) in enumerate(zip(got, want)) if x != y), None)
+    if k is None and len(got) != len(want):
+        k = min(len(got), len(want))
+    if k is not None:
+        bad.append("fine step %d: impl [%s] fine model [%s]" % (k, got[k] if k < len(got) else "-", want[k] if k < len(want) else "-"))
+    hist = out.split(" ## ftrace=")[0].partition(" ||")[2]
+    try:
+        hd = dict(kv.split("=", 1) for kv in hist.split())
+        md = dict(kv.split("=", 1) for kv in mhist.split())
+        if any(hd.get(f) != md.get(f) for f in ("sub", "cb", "ret")):
+            bad.append("history: impl [%s] fine model [%s]" % (hist.strip(), mhist.strip()))
+    except ValueError:
+        bad.append("unparsable history")
+    return bad, len(got)
+
+
 def derived_script(line, out):
+    out = out.split(" ## ftrace=")[0]
     m = re.search(r" derived=(.*) rets=\S+ \|\|", out)
     parts = line.split()
     d = "" if (not m or m.group(1) == "-") else m.group(1)
@@ -703,9 +742,16 @@ def compare_fine(ctx, harness, rep, stats):
     need(len(idx) > len(lines) // 2 or problems, "fine-mode harness answered %d of %d lines" % (len(idx), len(lines)))
     model = model_run(ctx, [derived_script(lines[i], impl[i]) for i in idx])
     cmon = driver_lines(ctx, ["ctxmon " + (re.search(r" ev=(\S+)", impl[i]) or [None, "-"])[1] for i in idx])
-    bad = steps = sync = 0
+    vidx = [i for i in idx if lines[i].startswith("finev ")]
+    need(len(vidx) > len(idx) // 4, "too few fine schedules are comparable with the fine model (%d of %d)" % (len(vidx), len(idx)))
+    fmodel = dict(zip_strict(vidx, model_run(ctx, [fine_model_script(lines[i], impl[i]) for i in vidx])))
+    bad = steps = sync = fsteps = 0
     for i, mo, cm in zip_strict(idx, model, cmon):
         probs, info = fine_verdict(lines[i], impl[i], mo)
+        if i in fmodel:
+            fp, nst = fine_model_verdict(impl[i], fmodel[i])
+            probs += fp
+            fsteps += nst
         if cm not in ("ok", "undisciplined"):
             probs.append(cm)
         steps += info.get("steps", 0)
@@ -717,9 +763,10 @@ def compare_fine(ctx, harness, rep, stats):
                 ctx.violation("fine:" + lines[i], "real threadpool.c at lock/unlock granularity (%s) %s: %s" % (
                     lines[i], "violates the property" if spec else "is not the model's behaviour on the derived coarse schedule "
                     "(a lock-free segment is not thread-private?)", "; ".join(probs)[:900]),
-                    {"fine_line": lines[i], "impl": impl[i], "model": mo, "problems": probs}, found_input=bool(spec))
-    need(sync > len(idx), "fine mode produced no comparable snapshots")
-    stats["fine"] = {"schedules": len(lines), "answered": len(idx), "fine_steps": steps, "state_comparisons": sync, "violations": bad,
+                    {"fine_line": lines[i], "impl": impl[i][:20000], "model": mo, "problems": probs}, found_input=bool(spec))
+    need(sync > len(idx) and fsteps > 10 * len(vidx), "fine mode produced no comparable snapshots")
+    stats["fine"] = {"schedules": len(lines), "answered": len(idx), "fine_steps": steps, "state_comparisons": sync,
+                     "schedules_compared_step_by_step_with_the_fine_model": len(vidx), "fine_model_state_comparisons": fsteps, "violations": bad,
                      "wall_s": round(time.time() - t0, 1)}
     stats["disagreements"] += bad
 
@@ -983,6 +1030,9 @@ def replay(ctx, path):
             return 1
         mo = ctx.driver(["c09"], derived_script(rp["fine_line"], impl[0]) + "\n")[0]
         probs, _ = fine_verdict(rp["fine_line"], impl[0], mo)
+        if rp["fine_line"].startswith("finev "):
+            fmo = ctx.driver(["c09"], fine_model_script(rp["fine_line"], impl[0]) + "\n")[0]
+            probs += fine_model_verdict(impl[0], fmo)[0]
         print("model on the derived coarse schedule:", mo)
         print("violated:", probs)
         return 1 if probs else 0
